@@ -9,7 +9,7 @@
    to be one: that is what "_partial" stands for.  The model is tied to the implementation by
    byte-identical text and equal truth tables on every run. *)
 From Coq Require Import List Bool NArith String.
-From PC Require Import Base.Result Model.Generic Model.Marker Model.MarkerAlg Proofs.GenericProofs Proofs.MarkerProofs Proofs.MarkerAlgProofs Proofs.LeafRebuild Proofs.StringClass.
+From PC Require Import Base.Result Model.Generic Model.Marker Model.MarkerAlg Proofs.GenericProofs Proofs.MarkerProofs Proofs.MarkerAlgProofs Proofs.LeafRebuild Proofs.StringClass Proofs.ExtraClass.
 Import ListNotations.
 Open Scope string_scope.
 
@@ -104,3 +104,17 @@ Theorem C07_parsed_clause_in_class : forall E n o v, str_name n = true -> define
   exists l, mk_leaf n (op_text o ++ string_of_list_ascii v)%string false = Ok l /\ SR E (MSingle l).
 Proof. exact clause_of_text_in_class. Qed.
 Print Assumptions C07_parsed_clause_in_class.
+
+(* ... and likewise, with no premise left, when clauses on 'extra' ('==' / '!=' with a plain name, evaluated as membership of the
+   normalised name in the set of active extras) are allowed next to the string clauses: [BR E] is a clause class on every
+   environment that defines the variables and a set of active extras (Proofs/ExtraClass.v; the merge goes through the extras
+   reading of the C16 algebra). *)
+Theorem C07_string_and_extra_clauses_form_a_class : forall E extras, e_extras E = Some extras -> clause_class E (BR E).
+Proof. exact both_clause_class. Qed.
+Print Assumptions C07_string_and_extra_clauses_form_a_class.
+Theorem C07_intersect_union_string_extra_markers : forall E extras, e_extras E = Some extras ->
+  forall fuel st a b, G (BR E) a -> G (BR E) b ->
+  (forall r, m_intersect fuel st a b = Ok r -> beval E r = beval E a && beval E b /\ G (BR E) r) /\
+  (forall r, m_union fuel st a b = Ok r -> beval E r = beval E a || beval E b /\ G (BR E) r).
+Proof. exact both_intersect_union. Qed.
+Print Assumptions C07_intersect_union_string_extra_markers.
